@@ -139,7 +139,7 @@ def run(ctx):
     for x in rep[-1]["viol"]:
         v = x["v"]
         recs.append({"kind": v["kind"], "id": v["id"], "other": v["other"], "info": v["info"], "run": x["run"],
-                     "scenario": by_run.get(x["run"])})
+                     "single_processor": bool((by_run.get(x["run"]) or {}).get("single")), "scenario": by_run.get(x["run"])})
     for s in scs:
         if len({(r["topic"], r["part"]) for r in s["recs"]}) < len(s["recs"]):
             shapes.add(json.dumps([[r["topic"], r["part"], r["cls"], r["delay_us"] > 0] for r in s["recs"]]))
